@@ -39,6 +39,7 @@ func runC02_11(c *core.Ctx) {
 			}
 			return true
 		})
+		payload = derivedVars(f.Info, f.Decl.Body, payload)
 		sig := f.Obj.Type().(*types.Signature)
 		isParam := false
 		for i := 0; i < sig.Params().Len(); i++ {
@@ -77,4 +78,65 @@ func runC02_11(c *core.Ctx) {
 				"a return is reachable on which the payload "+dataObj.Name()+" was neither written nor appended to the outbound buffer although the caller is told it was accepted: those bytes are dropped from the stream")
 		})
 	}
+}
+
+// derivedVars returns seed plus every local variable that is assigned (anywhere in body) from an expression
+// whose base variable – through slicing – is already in the set: p, q := p, r := q[k:] …
+func derivedVars(info *types.Info, body ast.Node, seed map[types.Object]bool) map[types.Object]bool {
+	out := map[types.Object]bool{}
+	for k := range seed {
+		out[k] = true
+	}
+	for changed := true; changed; {
+		changed = false
+		ast.Inspect(body, func(n ast.Node) bool {
+			as, ok := n.(*ast.AssignStmt)
+			if !ok || len(as.Lhs) != len(as.Rhs) {
+				return true
+			}
+			for i, r := range as.Rhs {
+				if v := baseVar(info, r); v != nil && out[v] {
+					if lo := flow.ObjOf(info, as.Lhs[i]); lo != nil && !out[lo] {
+						out[lo] = true
+						changed = true
+					}
+				}
+			}
+			return true
+		})
+	}
+	return out
+}
+
+// mentionsAny reports whether e mentions one of the objects, or a local assigned from an expression that does.
+func taintedBy(info *types.Info, body ast.Node, seed types.Object) map[types.Object]bool {
+	out := map[types.Object]bool{seed: true}
+	for changed := true; changed; {
+		changed = false
+		ast.Inspect(body, func(n ast.Node) bool {
+			as, ok := n.(*ast.AssignStmt)
+			if !ok || len(as.Lhs) != len(as.Rhs) {
+				return true
+			}
+			for i, r := range as.Rhs {
+				hit := false
+				ast.Inspect(r, func(m ast.Node) bool {
+					if id, ok := m.(*ast.Ident); ok && out[info.Uses[id]] {
+						hit = true
+					}
+					return true
+				})
+				if hit {
+					if lo := flow.ObjOf(info, as.Lhs[i]); lo != nil && !out[lo] {
+						if _, isVar := lo.(*types.Var); isVar && !lo.(*types.Var).IsField() {
+							out[lo] = true
+							changed = true
+						}
+					}
+				}
+			}
+			return true
+		})
+	}
+	return out
 }
